@@ -465,6 +465,12 @@ class _Tests(ast.NodeTransformer):
     def visit_If(self, node):
         self.generic_visit(node)
         node.test = self._test(node.test)
+        # if not C: A else: B   ->   if C: B else: A      (both arms present: one polarity for every rule)
+        if isinstance(node, ast.If) and node.orelse and isinstance(node.test, ast.UnaryOp) and \
+                isinstance(node.test.op, ast.Not):
+            self.changed = True
+            node.test = node.test.operand
+            node.body, node.orelse = node.orelse, node.body
         return node
 
     visit_While = visit_If
@@ -1119,8 +1125,8 @@ def _return_temps(fn):
             if a is None or b is None:
                 return None
             return stmts[:-1] + [ast.copy_location(ast.If(test=last.test, body=a, orelse=b), last)]
-        if isinstance(last, ast.Raise):
-            return stmts
+        if isinstance(last, (ast.Raise, ast.Return)):
+            return stmts            # this path never reaches the statement that reads the temporary
         return None
 
     def block(stmts):
@@ -1155,9 +1161,18 @@ def _return_temps(fn):
                     ts = [n.id for n in ast.walk(s2.value) if isinstance(n, ast.Name)]
                     stored_in_s1 = {n.id for n in ast.walk(s1) if isinstance(n, ast.Name) and isinstance(n.ctx, ast.Store)}
                     cand = [t for t in set(ts) if t in stored_in_s1]
+                    def _arm_values(stmts_, t_):
+                        out_ = []
+                        for x_ in ast.walk(ast.Module(body=stmts_, type_ignores=[])):
+                            if isinstance(x_, ast.Assign) and len(x_.targets) == 1 and \
+                                    isinstance(x_.targets[0], ast.Name) and x_.targets[0].id == t_:
+                                out_.append(x_.value)
+                        return out_
+                    has_call = any(isinstance(x, ast.Call) for x in ast.walk(s2.value))
                     if len(cand) == 1 and ts.count(cand[0]) == 1 and loads(cand[0]) == 1 and cand[0] not in _params(fn) \
                             and not any(isinstance(x, (ast.Lambda, ast.ListComp, ast.GeneratorExp, ast.SetComp,
-                                                       ast.DictComp, ast.Call)) for x in ast.walk(s2.value)):
+                                                       ast.DictComp)) for x in ast.walk(s2.value)) \
+                            and (not has_call or all(_pure_value(v_) for v_ in _arm_values([s1], cand[0]))):
                         t = cand[0]
                         new_if = sink([s1], t, s2.value)
                         n_store = sum(1 for n in ast.walk(s1) if isinstance(n, ast.Name) and n.id == t and
